@@ -75,7 +75,177 @@ pub struct Handled {
     pub more: bool,
 }
 
-pub struct SimService {
+
+/// What the service needs to know about a call, whatever type it was decoded into.
+pub enum View<'a> {
+    Echo { cid: u32, seq: u32, pad: &'a str },
+    Len { cid: u32, seq: u32, pad: &'a str },
+    Fail { cid: u32, seq: u32 },
+    Slow { cid: u32, seq: u32, polls: u32 },
+    Stream { cid: u32, seq: u32, flags: &'a [u8], ends: bool },
+}
+
+pub trait CallView {
+    fn view(&self) -> View<'_>;
+}
+
+impl CallView for SvcMethod<'_> {
+    fn view(&self) -> View<'_> {
+        match self {
+            SvcMethod::Echo { cid, seq, pad } => View::Echo { cid: *cid, seq: *seq, pad },
+            SvcMethod::Len { cid, seq, pad } => View::Len { cid: *cid, seq: *seq, pad },
+            SvcMethod::Fail { cid, seq } => View::Fail { cid: *cid, seq: *seq },
+            SvcMethod::Slow { cid, seq, polls } => View::Slow { cid: *cid, seq: *seq, polls: *polls },
+            SvcMethod::Stream { cid, seq, flags, ends } => View::Stream { cid: *cid, seq: *seq, flags, ends: *ends },
+        }
+    }
+}
+
+/// The same methods with owned fields, decoded by way of a `serde_json::Value` (the application
+/// first collects the call generically - `deserialize_any` on the call's inner deserializer - and
+/// interprets it afterwards).
+#[derive(Debug, Deserialize)]
+#[serde(tag = "method", content = "parameters")]
+pub enum SvcMethodOwned {
+    #[serde(rename = "org.example.Echo")]
+    Echo { cid: u32, seq: u32, pad: String },
+    #[serde(rename = "org.example.Fail")]
+    Fail { cid: u32, seq: u32 },
+    #[serde(rename = "org.example.Slow")]
+    Slow { cid: u32, seq: u32, polls: u32 },
+    #[serde(rename = "org.example.Stream")]
+    Stream { cid: u32, seq: u32, flags: Vec<u8>, ends: bool },
+    #[serde(rename = "org.example.Len")]
+    Len { cid: u32, seq: u32, pad: String },
+}
+
+#[derive(Debug)]
+pub struct ViaValue(SvcMethodOwned);
+
+impl<'de> Deserialize<'de> for ViaValue {
+    fn deserialize<D: serde::Deserializer<'de>>(d: D) -> Result<Self, D::Error> {
+        let v = Value::deserialize(d)?;
+        SvcMethodOwned::deserialize(v).map(ViaValue).map_err(serde::de::Error::custom)
+    }
+}
+
+impl CallView for ViaValue {
+    fn view(&self) -> View<'_> {
+        match &self.0 {
+            SvcMethodOwned::Echo { cid, seq, pad } => View::Echo { cid: *cid, seq: *seq, pad },
+            SvcMethodOwned::Len { cid, seq, pad } => View::Len { cid: *cid, seq: *seq, pad },
+            SvcMethodOwned::Fail { cid, seq } => View::Fail { cid: *cid, seq: *seq },
+            SvcMethodOwned::Slow { cid, seq, polls } => View::Slow { cid: *cid, seq: *seq, polls: *polls },
+            SvcMethodOwned::Stream { cid, seq, flags, ends } => View::Stream { cid: *cid, seq: *seq, flags, ends: *ends },
+        }
+    }
+}
+
+/// A reply that borrows from the service (`ReplyParams<'ser>` is allowed to).
+#[derive(Debug, Serialize)]
+pub struct EchoReplyRef<'s> {
+    cid: u32,
+    seq: u32,
+    pad: &'s str,
+}
+
+/// The usual way of writing `Service::ReplyStream`: a boxed trait object.
+pub struct BoxStrm(Pin<Box<dyn Stream<Item = Reply<Item>>>>);
+
+impl Stream for BoxStrm {
+    type Item = Reply<Item>;
+    fn poll_next(mut self: Pin<&mut Self>, cx: &mut Context<'_>) -> Poll<Option<Self::Item>> {
+        self.0.as_mut().poll_next(cx)
+    }
+    fn size_hint(&self) -> (usize, Option<usize>) {
+        self.0.size_hint()
+    }
+}
+
+thread_local! {
+    /// Where the zero-sized stream type finds its items (one stream per world, see `ZstStrm`).
+    static ZST_SLOT: RefCell<Option<SvcStream>> = const { RefCell::new(None) };
+}
+
+/// A zero-sized `Service::ReplyStream`: a unit struct fed from a per-thread source (what a service
+/// with one global subscription source might write). It carries no identity, so worlds that use
+/// it contain at most one streaming call.
+pub struct ZstStrm;
+
+impl Stream for ZstStrm {
+    type Item = Reply<Item>;
+    fn poll_next(self: Pin<&mut Self>, cx: &mut Context<'_>) -> Poll<Option<Self::Item>> {
+        ZST_SLOT.with(|s| match s.borrow_mut().as_mut() {
+            Some(st) => Pin::new(st).poll_next(cx),
+            None => Poll::Ready(None),
+        })
+    }
+    fn size_hint(&self) -> (usize, Option<usize>) {
+        ZST_SLOT.with(|s| s.borrow().as_ref().map(|st| st.size_hint()).unwrap_or((0, Some(0))))
+    }
+}
+
+/// One instantiation of the `Service` trait's associated types.
+pub trait SvcVariant: 'static {
+    const NAME: &'static str;
+    type Call<'de>: Deserialize<'de> + std::fmt::Debug + CallView;
+    type Params<'s>: Serialize + std::fmt::Debug;
+    type Strm: Stream<Item = Reply<Item>> + Unpin;
+    fn params<'s>(scratch: &'s mut String, cid: u32, seq: u32, pad: String) -> Self::Params<'s>;
+    fn stream(s: SvcStream) -> Self::Strm;
+}
+
+/// Call type derived and borrowing (`Cow`), owned reply, a concrete stream struct.
+pub struct Everyday;
+impl SvcVariant for Everyday {
+    const NAME: &'static str = "derived borrowing call type, owned reply, concrete stream struct";
+    type Call<'de> = SvcMethod<'de>;
+    type Params<'s> = EchoReply;
+    type Strm = SvcStream;
+    fn params<'s>(_scratch: &'s mut String, cid: u32, seq: u32, pad: String) -> EchoReply {
+        EchoReply { cid, seq, pad }
+    }
+    fn stream(s: SvcStream) -> SvcStream {
+        s
+    }
+}
+
+/// Call decoded by way of `serde_json::Value`, reply borrowing from the service, boxed stream.
+pub struct Dynamic;
+impl SvcVariant for Dynamic {
+    const NAME: &'static str = "call decoded by way of serde_json::Value, reply borrowing from the service, Pin<Box<dyn Stream>>";
+    type Call<'de> = ViaValue;
+    type Params<'s> = EchoReplyRef<'s>;
+    type Strm = BoxStrm;
+    fn params<'s>(scratch: &'s mut String, cid: u32, seq: u32, pad: String) -> EchoReplyRef<'s> {
+        *scratch = pad;
+        EchoReplyRef { cid, seq, pad: scratch }
+    }
+    fn stream(s: SvcStream) -> BoxStrm {
+        BoxStrm(Box::pin(s))
+    }
+}
+
+/// As `Everyday`, with a zero-sized stream type.
+pub struct ZeroSized;
+impl SvcVariant for ZeroSized {
+    const NAME: &'static str = "zero-sized reply stream type fed from a per-thread source";
+    type Call<'de> = SvcMethod<'de>;
+    type Params<'s> = EchoReply;
+    type Strm = ZstStrm;
+    fn params<'s>(_scratch: &'s mut String, cid: u32, seq: u32, pad: String) -> EchoReply {
+        EchoReply { cid, seq, pad }
+    }
+    fn stream(s: SvcStream) -> ZstStrm {
+        ZST_SLOT.with(|slot| *slot.borrow_mut() = Some(s));
+        ZstStrm
+    }
+}
+
+pub struct SimService<V: SvcVariant = Everyday> {
+    pub variant: std::marker::PhantomData<V>,
+    /// backing store of replies that borrow from the service
+    pub scratch: String,
     pub world: World,
     pub log: Rc<RefCell<Vec<Handled>>>,
     /// Extra random suspension of every call (buggify `service_suspends`).
@@ -125,19 +295,19 @@ pub fn flag_of(b: u8) -> Option<bool> {
     }
 }
 
-impl Service for SimService {
-    type MethodCall<'de> = SvcMethod<'de>;
-    type ReplyParams<'ser> = EchoReply;
+impl<V: SvcVariant> Service for SimService<V> {
+    type MethodCall<'de> = V::Call<'de>;
+    type ReplyParams<'ser> = V::Params<'ser>;
     type ReplyStreamParams = Item;
-    type ReplyStream = SvcStream;
+    type ReplyStream = V::Strm;
     type ReplyError<'ser> = SvcError;
 
     async fn handle<'ser>(
         &'ser mut self,
         call: Call<Self::MethodCall<'_>>,
     ) -> MethodReply<Self::ReplyParams<'ser>, Self::ReplyStream, Self::ReplyError<'ser>> {
-        let (cid, seq) = match call.method() {
-            SvcMethod::Echo { cid, seq, .. } | SvcMethod::Fail { cid, seq } | SvcMethod::Slow { cid, seq, .. } | SvcMethod::Stream { cid, seq, .. } | SvcMethod::Len { cid, seq, .. } => (*cid, *seq),
+        let (cid, seq) = match call.method().view() {
+            View::Echo { cid, seq, .. } | View::Fail { cid, seq } | View::Slow { cid, seq, .. } | View::Stream { cid, seq, .. } | View::Len { cid, seq, .. } => (cid, seq),
         };
         let extra = {
             let mut w = self.world.borrow_mut();
@@ -162,27 +332,31 @@ impl Service for SimService {
         if extra > 0 {
             yield_n(&self.world, extra).await;
         }
-        match call.method() {
-            SvcMethod::Echo { cid, seq, pad } => MethodReply::Single(Some(EchoReply { cid: *cid, seq: *seq, pad: pad.to_string() })),
-            SvcMethod::Len { cid, seq, pad } => {
+        match call.method().view() {
+            View::Echo { cid, seq, pad } => {
+                let pad = pad.to_string();
+                MethodReply::Single(Some(V::params(&mut self.scratch, cid, seq, pad)))
+            }
+            View::Len { cid, seq, pad } => {
                 // the payload must have arrived intact: its checksum goes into the (small) reply
-                MethodReply::Single(Some(EchoReply { cid: *cid, seq: *seq, pad: format!("{}:{}", pad.len(), pad_sum(pad)) }))
+                let pad = format!("{}:{}", pad.len(), pad_sum(pad));
+                MethodReply::Single(Some(V::params(&mut self.scratch, cid, seq, pad)))
             }
-            SvcMethod::Fail { cid, seq } => MethodReply::Error(SvcError::Failed { cid: *cid, seq: *seq }),
-            SvcMethod::Slow { cid, seq, polls } => {
-                yield_n(&self.world, *polls as usize).await;
-                MethodReply::Single(Some(EchoReply { cid: *cid, seq: *seq, pad: "slow".into() }))
+            View::Fail { cid, seq } => MethodReply::Error(SvcError::Failed { cid, seq }),
+            View::Slow { cid, seq, polls } => {
+                yield_n(&self.world, polls as usize).await;
+                MethodReply::Single(Some(V::params(&mut self.scratch, cid, seq, "slow".into())))
             }
-            SvcMethod::Stream { cid, seq, flags, ends } => {
+            View::Stream { cid, seq, flags, ends } => {
                 let id = {
                     let mut w = self.world.borrow_mut();
                     let mut st = StreamState::default();
                     for (i, f) in flags.iter().enumerate() {
                         st.script.push_back((i as u64, flag_of(*f)));
                     }
-                    st.ends = *ends;
+                    st.ends = ends;
                     st.created = true;
-                    if w.eager_all || w.eager_streams.iter().any(|e| e.0 == *cid && e.1 == *seq) {
+                    if w.eager_all || w.eager_streams.iter().any(|e| e.0 == cid && e.1 == seq) {
                         // every item is ready from the start
                         while let Some(it) = st.script.pop_front() {
                             st.available.push_back(it);
@@ -195,20 +369,26 @@ impl Service for SimService {
                             st.ended = true;
                         }
                     }
-                    if let Some((_, _, from, gate)) = w.stream_gates.iter().find(|g| g.0 == *cid && g.1 == *seq).cloned() {
+                    if let Some((_, _, from, gate)) = w.stream_gates.iter().find(|g| g.0 == cid && g.1 == seq).cloned() {
                         st.gate_from = from;
                         st.gate = Some(gate);
                         w.stat("streams_with_items_triggered_by_another_clients_call");
                     }
                     let id = w.new_stream(st);
-                    w.ev("svc.stream_start", *cid as u64, id as u64);
+                    w.ev("svc.stream_start", cid as u64, id as u64);
                     let sq = w.seq;
                     w.set_changes.push(sq);
                     id
                 };
-                MethodReply::Multi(SvcStream { inner: SimStream { world: self.world.clone(), id }, cid: *cid, seq: *seq })
+                MethodReply::Multi(V::stream(SvcStream { inner: SimStream { world: self.world.clone(), id }, cid, seq }))
             }
         }
+    }
+}
+
+impl<V: SvcVariant> SimService<V> {
+    pub fn new(world: World, log: Rc<RefCell<Vec<Handled>>>, suspends: bool, on_handle: Option<Rc<dyn Fn(u32, u32, u64)>>) -> Self {
+        SimService { variant: std::marker::PhantomData, scratch: String::new(), world, log, suspends, on_handle }
     }
 }
 
@@ -582,10 +762,31 @@ pub fn run_server(world: &World, suspends: bool) -> ServerRun {
 
 /// Run the real server and the given real clients (one task each) until quiescence.
 pub fn run_server_with(world: &World, suspends: bool, reals: Vec<RealClient>) -> ServerRun {
+    ZST_SLOT.with(|s| *s.borrow_mut() = None);
+    let v = world.borrow().svc_variant;
+    let r = match v {
+        1 => {
+            world.borrow_mut().stat("service_instantiation.value_call_borrowing_reply_boxed_stream");
+            run_server_as::<Dynamic>(world, suspends, reals)
+        }
+        2 => {
+            world.borrow_mut().stat("service_instantiation.zero_sized_reply_stream");
+            run_server_as::<ZeroSized>(world, suspends, reals)
+        }
+        _ => {
+            world.borrow_mut().stat("service_instantiation.everyday");
+            run_server_as::<Everyday>(world, suspends, reals)
+        }
+    };
+    ZST_SLOT.with(|s| *s.borrow_mut() = None);
+    r
+}
+
+fn run_server_as<V: SvcVariant>(world: &World, suspends: bool, reals: Vec<RealClient>) -> ServerRun {
     let log: Rc<RefCell<Vec<Handled>>> = Rc::new(RefCell::new(Vec::new()));
     let finished = Rc::new(RefCell::new(false));
     {
-        let service = SimService { world: world.clone(), log: log.clone(), suspends, on_handle: None };
+        let service = SimService::<V>::new(world.clone(), log.clone(), suspends, None);
         let server = Server::new(SimListener { world: world.clone() }, service);
         let mut ex = Exec::new();
         let fin = finished.clone();
@@ -660,9 +861,9 @@ pub fn describe_client(c: &ClientSpec) -> Value {
     })
 }
 
-impl std::fmt::Debug for SimService {
+impl<V: SvcVariant> std::fmt::Debug for SimService<V> {
     fn fmt(&self, f: &mut std::fmt::Formatter<'_>) -> std::fmt::Result {
-        write!(f, "SimService")
+        write!(f, "SimService<{}>", V::NAME)
     }
 }
 
